@@ -11,7 +11,8 @@ use quanta::Instant;
 use crate::common::Snapshot;
 use crate::distribution::{Distribution, DistributionBuilder};
 use crate::formatting::{
-    key_to_parts, sanitize_metric_name, write_help_line, write_metric_line, write_type_line,
+    key_to_parts, sanitize_metric_name, unit_suffix, write_help_line, write_metric_line,
+    write_type_line,
 };
 use crate::registry::GenerationalAtomicStorage;
 
@@ -117,55 +118,25 @@ impl Inner {
         let descriptions = self.descriptions.read().unwrap_or_else(PoisonError::into_inner);
 
         for (name, mut by_labels) in counters.drain() {
-            let unit = descriptions.get(name.as_str()).and_then(|(desc, unit)| {
-                write_help_line(&mut output, name.as_str(), desc);
-                *unit
-            });
-
-            write_type_line(&mut output, name.as_str(), "counter");
+            let name = self.write_family_header(&mut output, &descriptions, name, "counter");
             for (labels, value) in by_labels.drain() {
-                write_metric_line::<&str, u64>(
-                    &mut output,
-                    &name,
-                    None,
-                    &labels,
-                    None,
-                    value,
-                    unit.filter(|_| self.enable_unit_suffix),
-                );
+                write_metric_line::<&str, u64>(&mut output, &name, None, &labels, None, value, None);
             }
             output.push('\n');
         }
 
         for (name, mut by_labels) in gauges.drain() {
-            let unit = descriptions.get(name.as_str()).and_then(|(desc, unit)| {
-                write_help_line(&mut output, name.as_str(), desc);
-                *unit
-            });
-
-            write_type_line(&mut output, name.as_str(), "gauge");
+            let name = self.write_family_header(&mut output, &descriptions, name, "gauge");
             for (labels, value) in by_labels.drain() {
-                write_metric_line::<&str, f64>(
-                    &mut output,
-                    &name,
-                    None,
-                    &labels,
-                    None,
-                    value,
-                    unit.filter(|_| self.enable_unit_suffix),
-                );
+                write_metric_line::<&str, f64>(&mut output, &name, None, &labels, None, value, None);
             }
             output.push('\n');
         }
 
         for (name, mut by_labels) in distributions.drain() {
-            let unit = descriptions.get(name.as_str()).and_then(|(desc, unit)| {
-                write_help_line(&mut output, name.as_str(), desc);
-                *unit
-            });
-
             let distribution_type = self.distribution_builder.get_distribution_type(name.as_str());
-            write_type_line(&mut output, name.as_str(), distribution_type);
+            let name =
+                self.write_family_header(&mut output, &descriptions, name, distribution_type);
             for (labels, distribution) in by_labels.drain(..) {
                 let (sum, count) = match distribution {
                     Distribution::Summary(summary, quantiles, sum) => {
@@ -179,7 +150,7 @@ impl Inner {
                                 &labels,
                                 Some(("quantile", quantile.value())),
                                 value,
-                                unit.filter(|_| self.enable_unit_suffix),
+                                None,
                             );
                         }
 
@@ -194,7 +165,7 @@ impl Inner {
                                 &labels,
                                 Some(("le", le)),
                                 count,
-                                unit.filter(|_| self.enable_unit_suffix),
+                                None,
                             );
                         }
                         write_metric_line(
@@ -204,7 +175,7 @@ impl Inner {
                             &labels,
                             Some(("le", "+Inf")),
                             histogram.count(),
-                            unit.filter(|_| self.enable_unit_suffix),
+                            None,
                         );
 
                         (histogram.sum(), histogram.count())
@@ -218,7 +189,7 @@ impl Inner {
                     &labels,
                     None,
                     sum,
-                    unit.filter(|_| self.enable_unit_suffix),
+                    None,
                 );
                 write_metric_line::<&str, u64>(
                     &mut output,
@@ -227,7 +198,7 @@ impl Inner {
                     &labels,
                     None,
                     count,
-                    unit.filter(|_| self.enable_unit_suffix),
+                    None,
                 );
             }
 
@@ -235,6 +206,33 @@ impl Inner {
         }
 
         output
+    }
+
+    /// Writes the HELP (if the metric was described) and TYPE lines of a metric family, returning the
+    /// name of the family.
+    ///
+    /// With unit suffixes enabled, the unit is part of the family's name, so that every sample name
+    /// is the name given in the TYPE line plus, at most, a suffix allowed for that type.
+    fn write_family_header(
+        &self,
+        output: &mut String,
+        descriptions: &HashMap<String, (SharedString, Option<Unit>)>,
+        name: String,
+        metric_type: &str,
+    ) -> String {
+        let description = descriptions.get(name.as_str());
+        let unit = description.and_then(|(_, unit)| *unit).filter(|_| self.enable_unit_suffix);
+        let name = match unit_suffix(unit) {
+            Some(unit_suffix) => format!("{name}_{unit_suffix}"),
+            None => name,
+        };
+
+        if let Some((desc, _)) = description {
+            write_help_line(output, name.as_str(), desc);
+        }
+        write_type_line(output, name.as_str(), metric_type);
+
+        name
     }
 
     fn run_upkeep(&self) {
